@@ -78,6 +78,8 @@ static struct tpev_cre_log_s tpev_log_cre[TPEV_NCRE];
 static int tpev_log_close[TPEV_NCLOSE];
 static int tpev_n_ctl, tpev_n_set, tpev_n_cre, tpev_n_close, tpev_n_wait, tpev_n_gso, tpev_n_rd, tpev_n_wp,
     tpev_n_fcntl, tpev_n_sso, tpev_n_waitcalls;
+static void *tpev_last_ptr[TPEV_NWAIT];	/* per delivering epoll_wait call: udata pointer and bits reported (NULL/0: none) */
+static uint32_t tpev_last_rep[TPEV_NWAIT];
 static int tpev_wait_left;	/* epoll_wait calls on the worker descriptor that may still report something */
 static void tpev_on_wait_exhausted(void);	/* defined below, after threadpool.c: stops the worker loop */
 
@@ -141,6 +143,15 @@ static int v_epoll_ctl(int epfd, int op, int fd, struct epoll_event *ev) {
 	return (0);
 }
 
+/* Which registration a delivering epoll_wait reports is fixed by the harness (tpev_deliver_ptr: the udata pointer the
+ * registration must carry, tpev_deliver_epfd: the epoll instance it lives in), everything else is the solver's choice.
+ * Reason: a solver-chosen pointer flowing through epoll_event.data into `tp_udata->...` accesses of tpt_loop made the
+ * formula 4x larger (1.4 M variables for one delivery) [measured]; deliveries are therefore enumerated by target in the
+ * job shapes.  When the target lives in the pool virtual thread's epoll set, the worker's wait reports the pvt
+ * descriptor first (its registration carries tpev_pvt_ptr) and the nested wait on the pvt descriptor reports the target. */
+static void *tpev_deliver_ptr, *tpev_pvt_ptr;
+static int tpev_deliver_epfd;
+
 static int v_epoll_wait(int epfd, struct epoll_event *evs, int maxevents, int timeout) {
 	tpev_n_waitcalls++;
 	if (epfd == TPEV_EPFD) {
@@ -150,18 +161,22 @@ static int v_epoll_wait(int epfd, struct epoll_event *evs, int maxevents, int ti
 	int k = tpev_n_wait++;
 	V_ASSERT(k < TPEV_NWAIT, "call budget: epoll_wait");
 	if (k >= TPEV_NWAIT) exit(5);
+	tpev_last_ptr[k] = NULL; tpev_last_rep[k] = 0;
 	int cnt = TPEV_IN.wait[k].cnt;
 	V_ASSUME(cnt >= -1 && cnt <= 1 && maxevents >= 1);
 	if (cnt == -1) { V_ASSUME(TPEV_IN.wait[k].err > 0 && TPEV_IN.wait[k].err < 4096); errno = TPEV_IN.wait[k].err; return (-1); }
 	if (cnt == 0) return (0);
-	int s = TPEV_IN.wait[k].slot;
-	V_ASSUME(s >= 0 && s < TPEV_KSLOTS);
-	V_ASSUME(tpev_k[s].used && tpev_k[s].epfd == epfd);
+	V_ASSUME(tpev_deliver_ptr != NULL);
+	void *want = (epfd == tpev_deliver_epfd) ? tpev_deliver_ptr : tpev_pvt_ptr;
+	int s = -1;
+	for (int i = 0; i < TPEV_KSLOTS; i++) if (tpev_k[i].used && tpev_k[i].epfd == epfd && tpev_k[i].ptr == want) s = i;
+	V_ASSUME(s >= 0);	/* only registered descriptors are reported */
 	uint32_t rep = TPEV_IN.wait[k].events & tpev_k[s].events & ~TPEV_EP_PRIVATE;
 	V_ASSUME(rep != 0);	/* silent after a one-shot report, silent without readiness */
 	if (tpev_k[s].events & EPOLLONESHOT) tpev_k[s].events &= TPEV_EP_PRIVATE;
 	evs[0].events = rep;
-	evs[0].data.ptr = tpev_k[s].ptr;
+	evs[0].data.ptr = want;
+	tpev_last_ptr[k] = want; tpev_last_rep[k] = rep;
 	return (1);
 }
 
@@ -353,6 +368,7 @@ static void tpev_env_init(uint32_t s_flags) {
 	tpev_k[0].used = 1; tpev_k[0].epfd = TPEV_EPFD; tpev_k[0].fd = TPEV_EPFD_PVT;
 	tpev_k[0].events = EPOLLHUP | EPOLLERR | EPOLLIN | EPOLLRDHUP | EPOLLPRI;
 	tpev_k[0].ptr = &tpev_tpt->pvt_udata;
+	tpev_pvt_ptr = &tpev_tpt->pvt_udata;
 	V_ASSUME(TPEV_IN.errno0 >= 0 && TPEV_IN.errno0 < 4096);
 	errno = TPEV_IN.errno0;
 }
